@@ -710,6 +710,8 @@ def steps_for(ds, kind, level, fresh=None):
     steps of the program created)."""
     cat, dom = _tmpl_sets(level)
     core_cat, core_dom = _tmpl_sets('core' if level == 'full' else level)
+    if level == 'mini':
+        core_cat = [t for t in core_cat if t[0] in ('to_str', 'struct_of')]
     out = []
 
     def keep(fields):
@@ -749,20 +751,12 @@ def steps_for(ds, kind, level, fresh=None):
             out.append(('annotate_globals', name, f))
         for name, f in applicable(cat, row_fields, ('agg',)):
             out.append(('aggregate', name, f))
-        out.append(('select_globals_none',))
-        out.append(('add_index',))
-        out.append(('group_by_agg', all_row_fields[-1][0]))
-        out.append(('union_self',))
-        out.append(('join_self',))
-        out.append(('index_self',))
-        out.append(('to_matrix_like', ))
-        out.append(('rename', all_row_fields[-1][0]))
-        out.append(('distinct',))
-        out.append(('head',))
-        out.append(('order_by', all_row_fields[-1][0]))
-        out.append(('localize_false_collect',))
-        out.append(('flatten',))
-        out.append(('expand_types',))
+        structural = [('group_by_agg', all_row_fields[-1][0]), ('join_self',), ('flatten',)]
+        if level != 'mini':
+            structural += [('select_globals_none',), ('add_index',), ('union_self',), ('index_self',), ('to_matrix_like',),
+                           ('rename', all_row_fields[-1][0]), ('distinct',), ('head',), ('order_by', all_row_fields[-1][0]),
+                           ('localize_false_collect',), ('expand_types',)]
+        out += structural
     else:
         row_fields = keep([(f, ds[f].dtype) for f in ds.row])
         col_fields = keep([(f, ds[f].dtype) for f in ds.col])
@@ -803,11 +797,12 @@ def steps_for(ds, kind, level, fresh=None):
             out.append(('aggregate_cols', name, f))
         for f, _ in entry_fields + [(x, None) for x, _ in row_fields if x not in ds.row_key] + [(x, None) for x, _ in col_fields if x not in ds.col_key]:
             out.append(('drop', f))
-        out += [('rows',), ('cols',), ('entries',), ('localize_entries',), ('key_rows_by_none',), ('transmute_entries',),
-                ('add_row_index',), ('add_col_index',), ('unfilter_entries',), ('make_table',), ('globals_table',),
-                ('collect_cols_by_key',), ('union_cols_self',), ('union_rows_self',), ('group_rows_by_agg',),
-                ('group_cols_by_agg',), ('explode_rows_new',), ('choose_cols',), ('semi_join_rows',), ('entry_index_self',),
-                ('rename_entry',)]
+        out += [('rows',), ('cols',), ('entries',), ('localize_entries',), ('key_rows_by_none',), ('group_rows_by_agg',)]
+        if level != 'mini':
+            out += [('transmute_entries',), ('add_row_index',), ('add_col_index',), ('unfilter_entries',), ('make_table',),
+                    ('globals_table',), ('collect_cols_by_key',), ('union_cols_self',), ('union_rows_self',),
+                    ('group_cols_by_agg',), ('explode_rows_new',), ('choose_cols',), ('semi_join_rows',), ('entry_index_self',),
+                    ('rename_entry',)]
     return out
 
 
@@ -1196,7 +1191,7 @@ PLANS = {
     'q2': (('full', 'full'), 2, True, 1),
     'q3': (('mini', 'mini', 'mini'), 2, True, 3),
     't2': (('full', 'full'), 99, False, 1),
-    't3': (('full', 'core', 'core'), 2, True, 3),
+    't3': (('full', 'core', 'mini'), 2, True, 3),
 }
 TIER_PLANS = {'quick': ('q2', 'q3'), 'thorough': ('t2', 't3')}
 
@@ -1300,7 +1295,7 @@ def check(tier, seed, procs):
                             'catalogue to the fields the 1st step created, a dataset being expanded once per distinct schema; every 3-step '
                             'program over the mini catalogue (same reduction), only its 3-step programs counted',
                    'thorough': 'every program of <= 2 steps with the full catalogue over every field (no reduction); every 3-step program '
-                               'whose 1st step is from the full catalogue and whose 2nd and 3rd steps apply the core catalogue to fields '
+                               'whose 1st step is from the full catalogue and whose 2nd / 3rd steps apply the core / mini catalogue to fields '
                                'created earlier, a dataset being expanded once per distinct schema'}[tier]
                   + f'; {len(_state["cat"])} expression templates, {len(_state["dom"])} literal values, 3 seeds',
         'programs': total.get('programs', 0),
